@@ -176,9 +176,21 @@ pub struct Queries {
     pub term: Option<bool>,
 }
 
+thread_local! {
+    /// order of the two list queries in `observe` (set per game by `play`)
+    pub static REP_FIRST: std::cell::Cell<bool> = std::cell::Cell::new(false);
+}
+
 pub fn observe(g: &GameState) -> Result<Queries, PanicInfo> {
-    let norep = guard("valid_actions_no_rep", || g.valid_actions_no_rep())?;
-    let rep = guard("valid_actions", || g.valid_actions())?;
+    let (norep, rep) = if REP_FIRST.with(|c| c.get()) {
+        let rep = guard("valid_actions", || g.valid_actions())?;
+        let norep = guard("valid_actions_no_rep", || g.valid_actions_no_rep())?;
+        (norep, rep)
+    } else {
+        let norep = guard("valid_actions_no_rep", || g.valid_actions_no_rep())?;
+        let rep = guard("valid_actions", || g.valid_actions())?;
+        (norep, rep)
+    };
     let term = guard("is_terminal", || g.is_terminal())?;
     let norep_codes = codes_of(&norep);
     let rep_codes = codes_of(&rep);
@@ -205,7 +217,7 @@ pub struct StepOut {
 /// Apply an offered action to the engine state and to the shadow.
 pub fn step(g: &GameState, sh: &Shadow, code: Code) -> Result<StepOut, PanicInfo> {
     let action = code_act(code);
-    let after = guard("take_action", || g.take_action(&action))?;
+    let after = guard_act("take_action", &action, || g.take_action(&action))?;
     let obs_board = guard("piece_board", || decode_board(after.piece_board()))?;
     let obs_gold = guard("is_p1_turn_to_move", || after.is_p1_turn_to_move())?;
     let obs_step = guard("current_step", || after.current_step())? as u8;
@@ -395,12 +407,14 @@ pub struct PlayOpts {
     pub tree_node_budget: usize,
     /// replay only: repeat a transposition-order level walk at the turn start reached after this many actions (count, depth)
     pub replay_level_tree: Option<(usize, u32)>,
+    /// play this fraction of the games with look-alike decoys (decoy.rs)
+    pub decoy_per_mille: u32,
     /// probability (per mille) of choosing each setup placement uniformly (else "rabbits first" bias)
     pub setup_uniform: bool,
 }
 impl Default for PlayOpts {
     fn default() -> Self {
-        PlayOpts { max_turns: 200, max_actions: 4000, tree_per_mille: 0, tree_node_budget: 3000, replay_level_tree: None, setup_uniform: true }
+        PlayOpts { max_turns: 200, max_actions: 4000, tree_per_mille: 0, tree_node_budget: 3000, replay_level_tree: None, decoy_per_mille: 120, setup_uniform: true }
     }
 }
 
@@ -445,6 +459,9 @@ fn open(rec: &mut GameRecord, rng: &mut Rng, mon: &mut dyn Monitor, sink: &mut S
             };
             let mut model = SetupModel::new();
             for k in 0..32 {
+                if rec.decoyed {
+                    set_decoys(crate::decoy::setup_decoys(&done));
+                }
                 let r = (|| -> Result<(Vec<Action>, Vec<Action>, Option<bool>), PanicInfo> {
                     let offered = guard("valid_actions", || g.valid_actions())?;
                     let norep = guard("valid_actions_no_rep", || g.valid_actions_no_rep())?;
@@ -476,7 +493,7 @@ fn open(rec: &mut GameRecord, rng: &mut Rng, mon: &mut dyn Monitor, sink: &mut S
                     sink.count("setup_script_not_offered");
                     return None;
                 }
-                let ng = match guard("take_action", || g.take_action(&code_act(place_code(st)))) {
+                let ng = match guard_act("take_action", &code_act(place_code(st)), || g.take_action(&code_act(place_code(st)))) {
                     Ok(x) => x,
                     Err(p) => {
                         done.push(st);
@@ -523,18 +540,35 @@ fn note_panic(rec: &GameRecord, p: &PanicInfo, mon: &mut dyn Monitor, sink: &mut
 /// Play one game. `rec.actions` is filled with the actions applied.
 pub fn play(rec: &mut GameRecord, mut policy: Policy, opts: &PlayOpts, rng: &mut Rng, mon: &mut dyn Monitor, sink: &mut Sink) -> Outcome {
     sink.games += 1;
+    if !matches!(policy, Policy::Replay(_)) {
+        rec.decoyed = opts.decoy_per_mille > 0 && rng.below(1000) < opts.decoy_per_mille as usize;
+        rec.rep_first = rng.chance(1, 4);
+    }
+    REP_FIRST.with(|c| c.set(rec.rep_first));
+    if rec.decoyed {
+        sink.count("games_played_with_lookalike_decoys");
+    }
+    if rec.rep_first {
+        sink.count("games_with_valid_actions_asked_before_no_rep");
+    }
     mon.on_game_start(rec, sink);
     let (mut g, mut sh) = match open(rec, rng, mon, sink) {
         Some(x) => x,
         None => {
             sink.games_aborted += 1;
             mon.on_game_end(rec, sink);
+            take_decoys();
+            REP_FIRST.with(|c| c.set(false));
             return Outcome::Aborted;
         }
     };
+    take_decoys();
     let mut script_pos = 0usize;
     let mut outcome = Outcome::Finished;
     loop {
+        if rec.decoyed {
+            set_decoys(crate::decoy::play_decoys(&g));
+        }
         let q = match observe(&g) {
             Ok(q) => q,
             Err(p) => {
@@ -563,17 +597,21 @@ pub fn play(rec: &mut GameRecord, mut policy: Policy, opts: &PlayOpts, rng: &mut
         if opts.tree_per_mille > 0 && sh.step == 0 && rng.below(1000) < opts.tree_per_mille as usize {
             let mut budget = opts.tree_node_budget;
             let mut sub = rec.clone();
+            let saved = take_decoys(); // the decoys resemble `g`, not the nodes of its tree
             if rng.chance(1, 2) {
                 walk(&g, &sh, &q, &mut sub, 4, &mut budget, rng, mon, sink, false);
             } else {
                 walk_levels(&g, &sh, &q, &mut sub, 4, &mut budget, rng, mon, sink);
             }
+            set_decoys(saved);
         }
         if let Some((at, depth)) = opts.replay_level_tree {
             if at == rec.actions.len() {
                 let mut budget = usize::MAX;
                 let mut sub = rec.clone();
+                let saved = take_decoys();
                 walk_levels(&g, &sh, &q, &mut sub, depth, &mut budget, rng, mon, sink);
+                set_decoys(saved);
             }
         }
         let code = match choose(&mut policy, &mut script_pos, rng, &q, &sh) {
@@ -594,6 +632,9 @@ pub fn play(rec: &mut GameRecord, mut policy: Policy, opts: &PlayOpts, rng: &mut
             sink.resyncs += 1;
         }
         rec.actions.push(code);
+        if rec.decoyed {
+            set_decoys(crate::decoy::play_decoys(&out.after));
+        }
         {
             let o = Obs { rec, g: &g, sh: &sh, norep: &q.norep, norep_codes: &q.norep_codes, rep: &q.rep, rep_codes: &q.rep_codes, term: q.term, linear: true };
             let action = code_act(code);
@@ -619,6 +660,12 @@ pub fn play(rec: &mut GameRecord, mut policy: Policy, opts: &PlayOpts, rng: &mut
         }
         g = out.after;
         sh = out.sh_after;
+    }
+    take_decoys();
+    REP_FIRST.with(|c| c.set(false));
+    let dc = decoy_calls();
+    if dc > 0 {
+        sink.add("lookalike_decoy_calls", dc);
     }
     mon.on_game_end(rec, sink);
     outcome
